@@ -1759,3 +1759,216 @@ class SavepointBody(ConnSpec):
 
 
 VARIANTS.append(SavepointBody)
+
+
+# ======================================================================================
+class Get(ConnSpec):
+    """Connection.get(oid) (every reference found in a loaded record is resolved through it - by the reader's cache
+    lookups - and so is root()): ONE in-memory object per oid per connection (C14): an oid already filed in the cache,
+    or explicitly added, gives THAT object; otherwise the record is loaded through the connection's storage (the
+    snapshot, C02), a ghost is made from it and FILED IN THE CACHE under the oid before it is returned, so that the
+    next request gives the same object; nothing else changes; a closed connection refuses."""
+    func = CONN + '.get'
+    props = ('C14', 'C11')
+    cases = ('open', 'closed')
+    assumptions = CM.ASSUMPTIONS + ('ObjectReader.getGhost(pickle) returns a new object that belongs to no database yet '
+                                    '(constructor stand-in; the class comes from the pickle: bounded harness)',)
+
+    def setup(self, c, case=None):
+        w = CM.mk_conn(c)
+        S = c.obj(w.self).f
+        if case == 'closed':
+            S['opened'] = NONE
+        S['_pre_cache'] = c.new_obj('pydict', meta={'pairs': []})
+        rd = inst(c, 'ZODB.serialize:ObjectReader', _conn=w.self, _cache=w.cache, _factory=c.fresh_opaque('factory'))
+        S['_reader'] = rd
+        c.ghost['gt'] = {'made': [], 'loads': []}
+        return {'self': w.self, 'oid': c.fresh_bytes(8, 'oid')}
+
+    def hooks(self, c):
+        hk = ConnSpec.hooks(self, c)
+
+        def get_ghost(cc, args, kwargs, node):
+            w = world(cc)
+            u = U(cc, w)
+            x = CM.fresh_pobj(cc, 'ghost')
+            cc.assume(z3.And(sel(u['jar'], x.t) == 0, sel(u['oid'], x.t) == -1))
+            # a NEW object: not one the connection already knows
+            cc.assume(All(['oid'], lambda o: z3.And(
+                z3.Implies(sel(cc.obj(w.cache).f['dom'], o), sel(cc.obj(w.cache).f['val'], o) != x.t),
+                z3.Implies(sel(cc.obj(w.added).f['dom'], o), sel(cc.obj(w.added).f['val'], o) != x.t))))
+            cc.ghost['gt']['made'].append((args[1] if len(args) > 1 else None, x))
+            return x
+        hk['call:ZODB.serialize:ObjectReader.getGhost'] = get_ghost
+        return hk
+
+    def requires(self, c, E):
+        return list(conninv(c, world(c)))
+
+    def modifies(self, c, E):
+        w = world(c)
+        return self.universe_mods(c) | {(w.cache.id, 'dom'), (w.cache.id, 'val'), (w.storage.id, 'calls')}
+
+    def outcomes(self, c, E):
+        w = world(c)
+        u0 = dict(U(c, w))
+        cache0, added0 = dict(c.obj(w.cache).f), dict(c.obj(w.added).f)
+        o = bytes_num(c, E['oid'])
+        closed = isinstance(c.obj(w.self).f['opened'], VNone)
+        if closed:
+            return [Outcome('closed', 'raise', 'ZODB.POSException:ConnectionStateError')]
+        in_cache, in_added = sel(cache0['dom'], o), sel(added0['dom'], o)
+
+        def post(cc, E, r):
+            if not (isinstance(r, VOpaque) and r.tag == 'pobj'):
+                return [('returns-a-persistent-object', False)]
+            u1 = U(cc, w)
+            cache1 = cc.obj(w.cache).f
+            made = cc.ghost['gt']['made']
+            known = z3.Or(in_cache, in_added)
+            out = [('cached-oid-gives-the-cached-object', z3.Implies(in_cache, r.t == sel(cache0['val'], o))),
+                   ('added-oid-gives-the-added-object', z3.Implies(z3.And(z3.Not(in_cache), in_added),
+                                                                   r.t == sel(added0['val'], o))),
+                   ('known-oid.nothing-changes', z3.Implies(known, z3.And(
+                       cache1['dom'] == cache0['dom'], cache1['val'] == cache0['val'],
+                       *[u1[k] == u0[k] for k in ('oid', 'jar', 'serial', 'changed')]))),
+                   ('unknown-oid.loaded-made-and-FILED-under-the-oid-before-it-is-returned', z3.Implies(
+                       z3.Not(known), z3.And(sel(cache1['dom'], o), sel(cache1['val'], o) == r.t,
+                                             sel(u1['oid'], r.t) == o, sel(u1['jar'], r.t) == 1,
+                                             sel(u1['changed'], r.t) == -1))),
+                   ('unknown-oid.every-other-cache-entry-untouched', All(['oid'], lambda q: z3.Implies(
+                       q != o, z3.And(sel(cache1['dom'], q) == sel(cache0['dom'], q),
+                                      sel(cache1['val'], q) == sel(cache0['val'], q))))),
+                   ('every-other-object-untouched', All(['obj'], lambda x: z3.Implies(
+                       x != r.t, unchanged(u0, u1, x)))),
+                   ('at-most-one-object-made', len(made) <= 1 and (not made or made[0][1].t.eq(r.t)))]
+            pc = cc.obj(cc.obj(w.self).f['_pre_cache'])
+            out.append(('pre-cache-left-empty', pc.kind == 'pydict' and not pc.meta['pairs']))
+            return out
+        return [Outcome('object', post=post, result=lambda cc, E: CM.fresh_pobj(cc)),
+                Outcome('no-such-object', 'raise', 'ZODB.POSException:POSKeyError')]
+
+
+SPECS.append(Get)
+
+
+# ======================================================================================
+class SetState(ConnSpec):
+    """Connection.setstate(obj) (unghostifying): state AND serial of the object come from ONE load of its oid through
+    the connection's storage (the snapshot: C02 "whether a state comes from the storage or from the cache") - the
+    pickle handed to the reader and the serial stored on the object belong to the same revision; a Blob's committed
+    file is asked for under that same (oid, serial) (C13); every other object is untouched; a closed connection
+    refuses before loading."""
+    func = CONN + '.setstate'
+    props = ('C02', 'C11')
+    cases = ('open', 'closed')
+    assumptions = CM.ASSUMPTIONS + ('ObjectReader.setGhostState(obj, pickle) sets the state of obj from the pickle and '
+                                    'touches no other persistent object (unpickling: bounded harness, C14)',)
+
+    def setup(self, c, case=None):
+        w = CM.mk_conn(c)
+        S = c.obj(w.self).f
+        if case == 'closed':
+            S['opened'] = NONE
+        S['_load_count'] = c.fresh_int('_load_count')
+        S['_log'] = c.fresh_opaque('logger')
+        S['_reader'] = c.fresh_opaque('reader')
+        x = CM.fresh_pobj(c)
+        c.ghost['ss'] = {'x': x, 'set': [], 'blob': [], 'is_blob': None}
+        return {'self': w.self, 'obj': x}
+
+    def requires(self, c, E):
+        w = world(c)
+        u = U(c, w)
+        x = c.ghost['ss']['x'].t
+        return list(conninv(c, w)) + [('the-object-belongs-to-this-connection',
+                                       z3.And(sel(u['jar'], x) == 1, sel(u['oid'], x) >= 0))]
+
+    def hooks(self, c):
+        hk = ConnSpec.hooks(self, c)
+        g = lambda cc: cc.ghost['ss']
+        base_meth = hk.get('opaque_method')
+        base_isinst = hk.get('opaque_isinstance')
+
+        def ometh(cc, v, name, args, kwargs, node):
+            if v.tag == 'reader' and name == 'setGhostState':
+                g(cc)['set'].append(tuple(args))
+                w = world(cc)
+                u = U(cc, w)
+                if isinstance(args[0], VOpaque) and args[0].tag == 'pobj':
+                    u['changed'] = z3.Store(u['changed'], args[0].t, 0)
+                return NONE
+            if v.tag == 'logger':
+                return NONE
+            return base_meth(cc, v, name, args, kwargs, node) if base_meth else None
+
+        def isinst(cc, v, clsname):
+            if v.tag == 'pobj' and clsname.endswith('Blob'):
+                if g(cc)['is_blob'] is None:
+                    g(cc)['is_blob'] = (cc.choose([True, True], 'is-a-blob') == 0)
+                return g(cc)['is_blob']
+            return base_isinst(cc, v, clsname) if base_isinst else None
+        base_set = hk.get('opaque_setattr')
+
+        def osetattr(cc, v, name, val, node):
+            if v.tag == 'pobj' and name in ('_p_blob_uncommitted', '_p_blob_committed'):
+                g(cc)['blob'].append((v, name, val))
+                return True
+            return base_set(cc, v, name, val, node) if base_set else None
+        hk['opaque_setattr'] = osetattr
+        hk['opaque_method'] = ometh
+        hk['opaque_isinstance'] = isinst
+        hk['call:ZODB.Connection:className'] = lambda cc, a, k, n: VStr('<class>')
+        hk['call:ZODB.utils:oid_repr'] = lambda cc, a, k, n: VStr('<oid>')
+        return hk
+
+    def modifies(self, c, E):
+        w = world(c)
+        return self.universe_mods(c) | {(w.self.id, '_load_count'), (w.storage.id, 'calls')}
+
+    def outcomes(self, c, E):
+        w = world(c)
+        g = c.ghost['ss']
+        u0 = dict(U(c, w))
+        x = g['x'].t
+        o = sel(u0['oid'], x)
+        if isinstance(c.obj(w.self).f['opened'], VNone):
+            return [Outcome('closed', 'raise', 'ZODB.POSException:ConnectionStateError',
+                            post=lambda cc, E, r: [('nothing-loaded', not cc.ghost.get('loaded'))])]
+
+        def post(cc, E, r):
+            u1 = U(cc, w)
+            loads = cc.ghost.get('loaded') or []
+            ok = len(loads) == 1 and isinstance(loads[0][0], VBytes) and len(g['set']) == 1
+            out = [('one-load-of-this-objects-oid-and-one-state-assignment', ok)]
+            if ok:
+                p, ser = loads[0][1].items
+                sa = g['set'][0]
+                out += [('loaded-under-the-objects-oid', bytes_num(cc, loads[0][0]) == o),
+                        ('state-set-on-THIS-object-from-the-loaded-pickle', len(sa) == 2 and
+                         isinstance(sa[0], VOpaque) and sa[0].t.eq(x) and sa[1] is p),
+                        ('serial-is-the-serial-of-the-SAME-load', sel(u1['serial'], x) == bytes_num(cc, ser)),
+                        ('object-is-no-longer-a-ghost-and-not-changed', sel(u1['changed'], x) == 0),
+                        ('oid-and-owner-kept', z3.And(sel(u1['oid'], x) == o, sel(u1['jar'], x) == 1))]
+            out.append(('every-other-object-untouched', All(['obj'], lambda y: z3.Implies(y != x, unchanged(u0, u1, y)))))
+            lb = [e for e in cc.events if e[0] == 'storage.loadBlob']
+            if g['is_blob']:
+                okb = ok and len(lb) == 1 and len(lb[0][1]) == 2 and all(isinstance(a, VBytes) for a in lb[0][1])
+                out.append(('blob.committed-file-asked-for-once', okb))
+                if okb:
+                    out.append(('blob.committed-file-of-the-SAME-(oid, serial)', z3.And(
+                        bytes_num(cc, lb[0][1][0]) == o, bytes_num(cc, lb[0][1][1]) == bytes_num(cc, loads[0][1].items[1]))))
+                    names = [b[1] for b in g['blob']]
+                    out.append(('blob.working-copy-dropped-and-committed-file-installed',
+                                names == ['_p_blob_uncommitted', '_p_blob_committed'] and
+                                isinstance(g['blob'][0][2], VNone) and
+                                isinstance(g['blob'][1][2], VOpaque) and g['blob'][1][2].tag == 'committed_blob_file'))
+            else:
+                out.append(('not-a-blob.no-blob-file-asked-for', not lb and not g['blob']))
+            return out
+        return [Outcome('loaded', post=post, result=lambda cc, E: NONE),
+                Outcome('no-such-object', 'raise', 'ZODB.POSException:POSKeyError'),
+                Outcome('blob-file-missing', 'raise', 'ZODB.POSException:POSKeyError')]
+
+
+SPECS.append(SetState)
